@@ -382,3 +382,21 @@ def run_nearby(case):
     tr["out"] = "ok"
     tr["res"] = [int(x) for x in np.asarray(out).tolist()]
     return tr
+
+
+def run_find_n(case):
+    """numba.find_first_n / find_last_n: case = fn first|last, codes (0-based, -1 = null key), ngroups, n, sel (bits) or None."""
+    from groupby_lib.groupby import numba as nbf
+    codes = np.array(case["codes"], dtype=np.int64)
+    sel = case.get("sel")
+    mask = None if sel is None else np.array(sel, dtype=bool)
+    tr = {"kmode": 1, "kind": "head" if case["fn"] == "first" else "tail", "n": case["n"], "ngroups": case["ngroups"],
+          "keys": [NULL if c < 0 else c + 1 for c in case["codes"]], "sel": list(sel) if sel is not None else [1] * len(codes), "mat": []}
+    try:
+        f = nbf.find_first_n if case["fn"] == "first" else nbf.find_last_n
+        out = call(f, codes, case["ngroups"], case["n"], mask)
+        tr["out"] = "ok"
+        tr["mat"] = [[int(x) for x in row] for row in np.asarray(out).tolist()]
+    except Exception as ex:
+        tr.update(out="raise", exc=type(ex).__name__, msg=str(ex)[:160])
+    return tr
